@@ -61,6 +61,8 @@ var pool = []conf{
 	{"file-rootB", hdr + "SecRule ARGS \"@pmFromFile list.txt\" \"id:1,phase:1,deny,status:403\"\n", "B"},
 	{"rx-foo-prefilter-on", hdr + "SecRxPreFilter On\nSecRule ARGS \"@rx ^foo\" \"id:1,phase:1,deny,status:403,capture\"\n", ""},
 	{"rx-foo-prefilter-off", hdr + "SecRxPreFilter Off\nSecRule ARGS \"@rx ^foo\" \"id:1,phase:1,deny,status:403,capture\"\n", ""},
+	// the same exact-match pattern with a group twice in one WAF: the second operator is served from the cache and must still capture TX.1
+	{"rx-exact-group-twice", hdr + "SecRxPreFilter On\nSecRule ARGS \"@rx (^foo$)\" \"id:3,phase:1,pass,nolog\"\nSecRule ARGS \"@rx (^foo$)\" \"id:1,phase:1,pass,nolog,capture,setvar:tx.g=%{tx.1}\"\nSecRule TX:g \"@streq foo\" \"id:2,phase:1,deny,status:403\"\n", ""},
 	{"nid-foo", hdr + "SecRule ARGS \"@validateNid cl foo\" \"id:1,phase:1,deny,status:403\"\n", ""},
 	// the same text split differently into phrases: two words vs one phrase containing a space
 	{"pm-two-words", hdr + "SecRule ARGS \"@pm a1 b2\" \"id:1,phase:1,deny,status:403\"\n", ""},
